@@ -17,7 +17,14 @@ REPO = os.environ.get("VERIF_REPO", "/repo")
 COQ = os.path.join(ROOT, "coq")
 GEN = os.path.join(COQ, "gen")
 BUILD = os.path.join(ROOT, "build")
-HARNESS = os.path.join(BUILD, "panharness")
+# runs against a scratch worktree ($VERIF_REPO) use their own generated Coq modules (gen/World_<suffix>.v,
+# gen/cases_..._<suffix>.v) so that they can run beside a run against /repo
+SUFFIX = "" if os.path.realpath(REPO) == "/repo" else "_" + re.sub(r"[^A-Za-z0-9]+", "_", os.path.basename(os.path.realpath(REPO)))
+WORLD = "World" + SUFFIX
+# one binary per repository path, so that a run against a scratch worktree ($VERIF_REPO) never replaces the
+# binary a concurrent run against /repo is using
+HARNESS = os.path.join(BUILD, "panharness" if os.path.realpath(REPO) == "/repo" else
+                       "panharness-" + re.sub(r"[^A-Za-z0-9]+", "_", os.path.realpath(REPO)).strip("_"))
 NCPU = min(16, os.cpu_count() or 4)
 
 GOENV = dict(os.environ, GOFLAGS="-mod=mod", GOPROXY="off", GOSUMDB="off",
@@ -93,6 +100,8 @@ class Check:
             "wall_s": round(time.time() - self.t0, 2), "violations": nviol,
         }
         ev["coverage"]["known_findings_reported"] = list(self.known)
+        if WATCHDOG:
+            ev["coverage"]["stopped_by_watchdog"] = {"count": len(WATCHDOG), "first": [list(w) for w in WATCHDOG[:10]]}
         with open(os.path.join(ROOT, "evidence", self.pid + ".json"), "w") as f:
             json.dump(ev, f, indent=1, sort_keys=True)
             f.write("\n")
@@ -153,10 +162,10 @@ def build_harness(race=False, tags="verif"):
     if os.path.realpath(REPO) != "/repo":
         # mutation / scratch runs: same module, replace directives pointed at $VERIF_REPO
         mod = open(os.path.join(hdir, "go.mod")).read().replace("=> /repo", "=> " + os.path.realpath(REPO))
-        alt = os.path.join(BUILD, "alt.mod")
+        alt = os.path.join(BUILD, os.path.basename(HARNESS) + ".mod")
         with open(alt, "w") as f:
             f.write(mod)
-        shutil.copyfile(os.path.join(REPO, "go.sum"), os.path.join(BUILD, "alt.sum"))
+        shutil.copyfile(os.path.join(REPO, "go.sum"), alt[:-4] + ".sum")
         cmd += ["-modfile", alt]
     if race:
         env["CGO_ENABLED"] = "1"
@@ -191,14 +200,31 @@ def harness(sub, lines, extra=(), race=False, timeout=1800, shards=1, env=None, 
 
 
 def _harness1(exe, sub, extra, reqs, timeout, env=None):
-    p = subprocess.run([exe, sub] + list(extra), input="\n".join(reqs) + "\n",
-                       stdout=subprocess.PIPE, stderr=subprocess.PIPE, timeout=timeout,
-                       universal_newlines=True, env=env)
-    outs = [json.loads(l) for l in p.stdout.splitlines() if l.strip()]
-    if p.returncode != 0 or len(outs) != len(reqs):
-        raise HarnessCrash(sub, p.returncode, p.stderr[-4000:], len(outs), len(reqs),
-                           reqs[len(outs)] if len(outs) < len(reqs) else None)
+    """One harness process over the request lines. When the harness's watchdog stops the process (exit 3, last line
+    {"watchdog": kind}) the request that was running gets the reply {"kind": "fuel", "watchdog": kind} — discarded like an
+    evaluation that ran out of fuel — and a new process continues with the remaining requests."""
+    outs = []
+    todo = list(reqs)
+    while todo:
+        p = subprocess.run([exe, sub] + list(extra), input="\n".join(todo) + "\n",
+                           stdout=subprocess.PIPE, stderr=subprocess.PIPE, timeout=timeout,
+                           universal_newlines=True, env=env)
+        got = [json.loads(l) for l in p.stdout.split("\n") if l.strip()]
+        if p.returncode == 3 and got and isinstance(got[-1], dict) and "watchdog" in got[-1] and len(got) <= len(todo):
+            kind = got[-1]["watchdog"]
+            outs += got[:-1] + [{"kind": "fuel", "watchdog": kind, "out": "", "repr": "", "errk": "", "errmsg": ""}]
+            WATCHDOG.append((sub, kind, todo[len(got) - 1][:300]))
+            todo = todo[len(got):]
+            continue
+        if p.returncode != 0 or len(got) != len(todo):
+            raise HarnessCrash(sub, p.returncode, p.stderr[-4000:], len(outs) + len(got), len(reqs),
+                               todo[len(got)] if len(got) < len(todo) else None)
+        outs += got
+        todo = []
     return outs
+
+
+WATCHDOG = []   # (sub-command, kind, request) of every evaluation the harness watchdog stopped in this run
 
 
 class HarnessCrash(Exception):
@@ -319,6 +345,19 @@ def obligations(chk, props_file, extra_targets=()):
         return False, "theorem depends on an axiom outside the allow-list: " + ", ".join(bad_ax)
     if len(blocks) < len(thms):
         return False, "Print Assumptions missing under some theorem of %s (%d < %d)" % (props_file, len(blocks), len(thms))
+    if chk.tier == "thorough" and "coqchk" not in chk.cov:
+        # independent re-check of the compiled property file and everything it depends on
+        mod = "PanVerif." + props_file[:-2].replace("/", ".")
+        rc, out = run(["timeout", "2400", "coqchk", "-silent", "-o", "-R", ".", "PanVerif", mod], cwd=COQ, timeout=2500)
+        flat = " ".join(out.split())
+        m = re.search(r"\* Axioms: (.*?) \* Constants/Inductives relying on type-in-type", flat)
+        chk.cov["coqchk"] = {"cmd": "coqchk -silent -o -R . PanVerif " + mod, "rc": rc, "axioms": m.group(1).strip() if m else "?"}
+        if rc != 0:
+            return False, "coqchk rejects %s: %s" % (vo, out[-600:])
+        bad_ck = [a for a in re.findall(r"([A-Za-z_][\w.]*)\s*:", m.group(1)) if a.split(".")[-1] not in
+                  [x.split(".")[-1] for x in ALLOWED_AXIOMS]] if m and "<none>" not in m.group(1) else []
+        if bad_ck:
+            return False, "coqchk reports axioms outside the allow-list: " + ", ".join(bad_ck)
     chk.cov["discharged"] += len(thms)
     chk.cov["theorems"] = chk.cov.get("theorems", []) + thms
     tb = chk.cov["trusted_base"]
@@ -332,6 +371,9 @@ def obligations(chk, props_file, extra_targets=()):
 def coq_eval(name, body, timeout=900):
     """Write gen/<name>.v with body, compile it, return (rc, output)."""
     os.makedirs(GEN, exist_ok=True)
+    if SUFFIX:
+        name += SUFFIX
+        body = body.replace("gen.World.", "gen." + WORLD + ".").replace("gen.World\n", "gen." + WORLD + "\n").replace("gen.World ", "gen." + WORLD + " ")
     path = os.path.join(GEN, name + ".v")
     with open(path, "w") as f:
         f.write(body)
